@@ -296,27 +296,38 @@ class Frame:
 
     def branch(self, c, then, els):
         env0, heap0 = self.snapshot()
+        n0 = len(self.pathcond)
         self.pathcond.append(c)
         t_exit = self.block(then) if then is not None else False
-        self.pathcond.pop()
+        extra_t = self.pathcond[n0 + 1:]     # conditions left behind by early exits nested in the branch
+        del self.pathcond[n0:]
         env_t, heap_t = self.snapshot()
         self.restore(env0, heap0)
         self.pathcond.append(("not", c))
         e_exit = self.block(els) if els is not None else False
-        self.pathcond.pop()
+        extra_e = self.pathcond[n0 + 1:]
+        del self.pathcond[n0:]
         env_e, heap_e = self.snapshot()
         if t_exit and e_exit:
             return True
         if t_exit:
             self.restore(env_e, heap_e)
             self.pathcond.append(("not", c))   # the rest of the enclosing block runs only if !c
+            self.pathcond.extend(extra_e)
             return False
         if e_exit:
             self.restore(env_t, heap_t)
             self.pathcond.append(c)
+            self.pathcond.extend(extra_t)
             return False
         # merge
         self.restore(self.merge(c, env_t, env_e), self.merge(c, heap_t, heap_e, heap=True))
+        if extra_t or extra_e:
+            def conj(first, rest):
+                for x in rest:
+                    first = ("and", first, x)
+                return first
+            self.pathcond.append(("or", conj(c, extra_t), conj(("not", c), extra_e)))
         return False
 
     def switch(self, n):
